@@ -78,13 +78,17 @@ class GB:
         self.inits.append([n, dt, list(shape), vals])
         return n
 
-    def node(self, op, ins, outs_types, attrs=None, graphs=None, inherit=None):
+    def node(self, op, ins, outs_types, attrs=None, graphs=None, inherit=None, domain=None):
         outs = []
         for dt, shape in outs_types:
             o = self.fresh()
             self.vals[o] = (dt, tuple(shape))
             outs.append(o)
         nd = {"op": op, "i": list(ins), "o": outs}
+        if domain:
+            nd["d"] = domain
+            attrs = None
+            self.kinds.append("custom_domain_twin")
         if attrs:
             nd["a"] = attrs
         if graphs:
@@ -131,7 +135,16 @@ class GB:
             attrs = {"alpha": 0.1}
         if op == "Elu":
             attrs = {"alpha": 1.0}
-        return self.node(op, [src], [(dt, shape)], attrs, inherit=src)
+        return self.node(op, [src], [(dt, shape)], attrs, inherit=src, domain=self.twin_domain(op, dt, shape))
+
+    def twin_domain(self, op, dt, shape):
+        """Now and then the node is a call of a model-local function that merely *shares the name* of the operator
+        (jax2onnx names function domains custom.<Name>.1 and the op_type after the user's class/function, so a user
+        module called Tanh or Add yields exactly this); its body (see _twin_function) is neither elementwise nor
+        layout-free, so a rewrite that matches on op_type alone changes results."""
+        if dt != "f" or len(shape) < 1 or op in ("Identity",) or self.draw(st.integers(0, 11)) != 0:
+            return None
+        return f"custom.{op}.1"
 
     def binary_side(self, src, ops=BINARY, allow_tensor=True):
         dt, shape = self.vals[src]
@@ -139,7 +152,7 @@ class GB:
         c, kind = self.side_operand(dt, shape, allow_tensor)
         ins = [src, c] if self.draw(st.booleans()) else [c, src]
         self.kinds.append("side_" + kind)
-        return self.node(op, ins, [(dt, shape)], inherit=src)
+        return self.node(op, ins, [(dt, shape)], inherit=src, domain=self.twin_domain(op, dt, shape))
 
     def clip(self, src):
         dt, shape = self.vals[src]
@@ -178,6 +191,22 @@ class GB:
     def pick(self, pred=lambda n, dt, s: True):
         c = [n for n, (dt, s) in self.vals.items() if pred(n, dt, s)]
         return self.draw(st.sampled_from(c)) if c else None
+
+    def pick_interior(self, dt_want="f"):
+        """A value produced by a rewrite-relevant node that already has a direct consumer: the interior of a fold."""
+        used = {i for nd in self.nodes for i in nd["i"]}
+        c = [o for nd in self.nodes if nd["op"] in ("Transpose", "Reshape", "Add", "Cast", "Relu", "Tanh", "Neg", "Mul", "Sigmoid")
+             for o in nd["o"] if o in used and o in self.vals and self.vals[o][0] == dt_want]
+        return self.draw(st.sampled_from(sorted(set(c)))) if c else None
+
+    def pick_capture(self):
+        # half of the captures aim at the interior of a fold (the value a rewrite wants to remove or relayout)
+        v = self.pick_interior() if self.draw(st.booleans()) else None
+        if v is None:
+            v = self.pick(lambda n, dt, s: dt == "f" and n not in [i[0] for i in self.inputs])
+        if v is None:
+            v = self.pick(lambda n, dt, s: dt == "f")
+        return v
 
     # ---------------------------------------------------------------- patterns
     def pat_tpair(self):
@@ -438,14 +467,17 @@ class GB:
         a = self.unary(src, ["Relu", "Tanh"])
         last = self.nodes[-1]
         dt, shape = self.vals[src]
-        b = self.node(last["op"], [src], [(dt, shape)], last.get("a"))
+        b = self.node(last["op"], [src], [(dt, shape)], last.get("a"), domain=last.get("d"))
         return self.node("Add", [a, b], [(dt, shape)]) if self.draw(st.booleans()) else b
 
     def pat_range(self):
         n = self.draw(st.integers(0, 6))
-        start = self.draw(st.sampled_from([0, 1, -3, 126, 2**31 - 2]))
-        delta = self.draw(st.sampled_from([1, 2, -1]))
-        limit = start + n * delta
+        start = self.draw(st.sampled_from([0, 1, -3, 100, 120, 126, 250, -126, 2**31 - 8, 2**31 - 2]))
+        delta = self.draw(st.sampled_from([1, 2, 3, 5, 10, -1, -2, -7]))
+        # the span need not be a multiple of the stride: Range then emits ceil(span/stride) elements
+        extra = self.draw(st.integers(0, abs(delta) - 1))
+        limit = start + n * delta + (extra if delta > 0 else -extra)
+        n = max(0, -((start - limit) // delta))
         s = self.const("l", [], [start], "start")
         l = self.const("l", [], [limit], "limit")
         d = self.const("l", [], [delta], "delta")
@@ -455,9 +487,7 @@ class GB:
         return self.node("Cast", [mid], [("l", (n,))], {"to": DT["l"]})
 
     def pat_if(self):
-        v = self.pick(lambda n, dt, s: dt == "f" and n not in [i[0] for i in self.inputs])
-        if v is None:
-            v = self.pick(lambda n, dt, s: dt == "f")
+        v = self.pick_capture()
         if v is None:
             return
         dt, shape = self.vals[v]
@@ -478,9 +508,7 @@ class GB:
         return self.node("If", [cond], [(dt, shape)], graphs={"then_branch": then_g, "else_branch": else_g})
 
     def pat_loop(self):
-        v = self.pick(lambda n, dt, s: dt == "f" and n not in [i[0] for i in self.inputs])
-        if v is None:
-            v = self.pick(lambda n, dt, s: dt == "f")
+        v = self.pick_capture()
         if v is None:
             return
         dt, shape = self.vals[v]
@@ -504,7 +532,7 @@ class GB:
 
     # -------------------------------------------------------------- free steps
     def free_step(self):
-        k = self.draw(st.sampled_from(["T", "T", "Tinv", "U", "U", "B", "Bs", "R", "Rinv", "RM", "W", "Cmp", "Not", "Ident"]))
+        k = self.draw(st.sampled_from(["T", "T", "Tinv", "U", "U", "B", "Bs", "R", "Rinv", "RM", "W", "Cmp", "Not", "Ident", "Ctwin"]))
         self.kinds.append("free_" + k)
         src = self.pick(lambda n, dt, s: dt == "f" and "_flat" not in s)
         if src is None:
@@ -520,6 +548,10 @@ class GB:
             return
         if k == "U":
             return self.unary(src)
+        if k == "Ctwin" and len(shape) >= 1:
+            # a model-local function that shares its name with a structural operator the rewrites look for
+            op = self.draw(st.sampled_from(["Transpose", "Reshape", "Cast", "Identity", "Dropout", "ReduceMean", "Sigmoid", "Not", "Range"]))
+            return self.node(op, [src], [(dt, shape)], inherit=src if self.draw(st.booleans()) else None, domain=f"custom.{op}.1")
         if k == "Ident":
             return self.node("Identity", [src], [(dt, shape)], inherit=src)
         if k == "B":
@@ -635,8 +667,30 @@ def _attr_nodes(nodes):
         kw = dict(nd.get("a") or {})
         for an, sg in (nd.get("g") or {}).items():
             kw[an] = _subgraph(sg, an)
+        if nd.get("d"):
+            kw["domain"] = nd["d"]
         out.append(h.make_node(nd["op"], nd["i"], nd["o"], **kw))
     return out
+
+
+def _custom_calls(nodes, acc):
+    for nd in nodes:
+        if nd.get("d"):
+            acc.add((nd["d"], nd["op"], len(nd["i"])))
+        for sg in (nd.get("g") or {}).values():
+            _custom_calls(sg["nodes"], acc)
+    return acc
+
+
+def _twin_function(domain, op, arity, opset):
+    """Body of a same-named model-local function: a running sum along axis 0 (minus the second operand)."""
+    ins = [f"a{i}" for i in range(arity)]
+    nodes = [h.make_node("Constant", [], ["ax"], value_int=0), h.make_node("CumSum", [ins[0], "ax"], ["cs"])]
+    if arity == 1:
+        nodes.append(h.make_node("Identity", ["cs"], ["y"]))
+    else:
+        nodes.append(h.make_node("Sub", ["cs", ins[1]], ["y"]))
+    return h.make_function(domain, op, ins, ["y"], nodes, opset_imports=[h.make_opsetid("", opset)])
 
 
 def _subgraph(sg, name):
@@ -653,7 +707,12 @@ def build_model(spec, annotate=True) -> onnx.ModelProto:
     produced = [o for nd in spec["nodes"] for o in nd["o"]]
     value_info = [_vi(n, *vi[n]) for n in produced if n not in spec["outputs"] and n in vi] if annotate else []
     g = h.make_graph(nodes, "g", inputs, outputs, inits, value_info=value_info)
-    return h.make_model(g, opset_imports=[h.make_opsetid("", spec["opset"])], ir_version=10)
+    calls = sorted(_custom_calls(spec["nodes"], set()))
+    if not calls:
+        return h.make_model(g, opset_imports=[h.make_opsetid("", spec["opset"])], ir_version=10)
+    fns = [_twin_function(d, op, ar, spec["opset"]) for d, op, ar in calls]
+    imports = [h.make_opsetid("", spec["opset"])] + [h.make_opsetid(d, 1) for d in sorted({c[0] for c in calls})]
+    return h.make_model(g, opset_imports=imports, functions=fns, ir_version=10)
 
 
 def make_feeds(spec):
